@@ -145,7 +145,7 @@ def load_known(path=KNOWN_FILE):
     return known, fixed
 
 
-def finish(rep, tier, seed, level, wall, meta, stats, explanation, rule_text, trusted_base, assumptions, out=print, evidence_dir=None, replay_dir=None):
+def finish(rep, tier, seed, level, wall, meta, stats, explanation, rule_text, trusted_base, assumptions, out=print, evidence_dir=None, replay_dir=None, extra=None):
     """Print the verdict lines, write evidence and replay files, return exit code."""
     prop = rep.prop
     evidence_dir = evidence_dir or os.path.join(VERIF, "evidence")
@@ -215,6 +215,8 @@ def finish(rep, tier, seed, level, wall, meta, stats, explanation, rule_text, tr
         "wall_s": round(wall, 3),
         "violations": len(violations),
     }
+    if extra:
+        ev["coverage"].update(extra)
     with open(os.path.join(evidence_dir, f"{prop}.json"), "w", encoding="utf-8") as fh:
         json.dump(ev, fh, indent=1, default=str)
     out(
